@@ -348,7 +348,22 @@ def build_item(item, tmpl_path, canary=False):
     for sg in segs:
         if sg.kind == 'rw':
             rewrites.append({'D': sg.meta['D'], 'old': sg.meta.get('old', '')[:200], 'new': sg.text[:200]})
+    # module-level constants of the same source file that the item mentions (e.g. a limit introduced next to
+    # the function): they are cut out verbatim and emitted with the unit, so that a change that adds one is
+    # still decided instead of failing to resolve
+    auto_consts = []
+    if comps[-1].startswith('fn '):
+        for m in set(re.findall(r'\b([A-Z][A-Z0-9_]{2,})\b', text)):
+            try:
+                cs, ce, _ = rsx.locate(src, ['const ' + m])
+            except ExtractError:
+                continue
+            ctext = src[cs:ce]
+            if s <= cs < e:
+                continue  # declared inside the item itself
+            auto_consts.append((m, ctext))
     info = {
+        'auto_consts': auto_consts,
         'item': what, 'file': relfile, 'first_line': first_line, 'sha256': sha(text),
         'props': props, 'rewrites': rewrites, 'tline': item['line'], 'lost_hints': lost_hints,
         'name': comps[-1].split(None, 1)[-1] if ' ' in comps[-1] else comps[-1],
@@ -374,16 +389,33 @@ def assemble(tmpl_path, out_path, canary=False):
     # non-blank character.
     runs = []
     safety_props = []
+    emitted_consts = set()
+    pending_consts = []
+    tmpl_text = '\n'.join(p[2] for p in parts if p[0] == 'text')
     for kind, lineno, payload in parts:
         if kind == 'text' and payload.strip().startswith('//@@ safety '):
             safety_props += payload.split()[2:]
             continue
         if kind == 'text':
+            if payload.strip().startswith('fn main()') and pending_consts:
+                for ct in pending_consts:
+                    runs.append((ct, {'k': 'tmpl', 'tline': lineno}))
+                pending_consts = []
             runs.append((payload + '\n', {'k': 'tmpl', 'tline': lineno}))
         else:
             segs, info, text, first_line = build_item(payload, tmpl_path, canary)
             idx = len(items)
             items.append(info)
+            for cname, ctext in info.pop('auto_consts'):
+                if cname in emitted_consts or re.search(r'\bconst\s+' + cname + r'\b', tmpl_text):
+                    continue
+                # already extracted explicitly by another item of this unit?
+                if any(re.search(r'\bconst\s+' + cname + r'\b', r0[0]) for r0 in runs if r0[1].get('k') == 'src'):
+                    continue
+                emitted_consts.add(cname)
+                ct = re.sub(r'^pub\s*\(\s*crate\s*\)\s*', 'pub ', ctext)
+                ct = re.sub(r':\s*&str\b', ": &'static str", ct)
+                pending_consts.append('// auto-extracted module-level constant referenced by ' + info['item'] + '\n' + ct + '\n')
             for sg in segs:
                 if sg.kind == 'src':
                     base_line = first_line + text.count('\n', 0, sg.meta['off'])
